@@ -150,18 +150,18 @@ Section Sinc.
            else nth_error l ((r mod 1024) mod length l)
     end.
 
-  (* qt_sinc_init: slots <- initial value, counter <- expect, ready emptied iff expect != 0.
-     `junk` is the content of the never-written result buffer (malloc'ed, not initialised). *)
-  Definition start (hd : bool) (iv junk : V) (ns : nat) (expect : Z) (progs : list (list op)) : state :=
-    mkst hd iv ns expect (expect =? 0) (repeat iv ns) junk
+  (* qt_sinc_init: slots <- initial value, result <- initial value (the reduction of no submissions; /repo commit
+     15fe3d8), counter <- expect, ready emptied iff expect != 0. *)
+  Definition start (hd : bool) (iv : V) (ns : nat) (expect : Z) (progs : list (list op)) : state :=
+    mkst hd iv ns expect (expect =? 0) (repeat iv ns) iv
          (map (fun p => next hd (mkthr PIdle p [])) progs)
          expect 0 0 0 [] false false.
 
-  (* qt_sinc_reset on a quiescent sinc: slots <- initial value, counter <- n, ready emptied iff n != 0
-     (NOT filled when n = 0), result untouched; then the next generation of programs runs *)
+  (* qt_sinc_reset on a quiescent sinc: result and slots <- initial value, counter <- n, ready emptied iff n != 0
+     (NOT filled when n = 0); then the next generation of programs runs *)
   Definition reset (s : state) (n : Z) (progs : list (list op)) : state :=
     mkst (hasdata s) (initv s) (nslots s) n (if n =? 0 then ready s else false)
-         (repeat (initv s) (nslots s)) (result s)
+         (repeat (initv s) (nslots s)) (initv s)
          (map (fun p => next (hasdata s) (mkthr PIdle p [])) progs)
          n 0 0 0 [] false false.
 
